@@ -93,6 +93,25 @@ func ptOf(h string) (*bn.G1, bool) {
 	return g, true
 }
 
+// G2 point supplied by a generator: 128 canonical bytes, or 00 for infinity
+func pt2Of(h string) (*bn.G2, bool) {
+	b, ok := unhex(h)
+	if !ok {
+		return nil, false
+	}
+	if len(b) == 1 && b[0] == 0 {
+		return new(bn.G2).ScalarBaseMult(big.NewInt(0)), true
+	}
+	if len(b) != 128 {
+		return nil, false
+	}
+	g := new(bn.G2)
+	if _, err := g.Unmarshal(b); err != nil {
+		return nil, false
+	}
+	return g, true
+}
+
 func errClass(err error) string {
 	if err == nil {
 		return "ok"
@@ -269,6 +288,55 @@ func exec(line string) string {
 			return "bad-op"
 		}
 		return hx.Hex(new(bn.G1).ScalarMult(a, k).Marshal())
+	case w[0] == "g2neg" && len(w) == 2:
+		a, ok := pt2Of(w[1])
+		if !ok {
+			return "bad-op"
+		}
+		return hx.Hex(new(bn.G2).Neg(a).Marshal())
+	case w[0] == "g2add" && len(w) == 3:
+		a, ok1 := pt2Of(w[1])
+		b, ok2 := pt2Of(w[2])
+		if !ok1 || !ok2 {
+			return "bad-op"
+		}
+		return hx.Hex(new(bn.G2).Add(a, b).Marshal())
+	case w[0] == "g2mul" && len(w) == 3:
+		a, ok1 := pt2Of(w[1])
+		k, ok2 := bigDec(w[2])
+		if !ok1 || !ok2 {
+			return "bad-op"
+		}
+		return hx.Hex(new(bn.G2).ScalarMult(a, k).Marshal())
+	case w[0] == "pkgen" && len(w) == 2:
+		k, ok := bigDec(w[1])
+		if !ok {
+			return "bad-op"
+		}
+		pk := groupsig.GeneratePubkey(seckeyOf(k))
+		back := groupsig.ByteToPublicKey(pk.Serialize())
+		return pubReport(pk) + " back=" + pubReport(&back)
+	case w[0] == "pkagg":
+		var pks []groupsig.Pubkey
+		for _, h := range w[1:] {
+			b, ok := unhex(h)
+			if !ok {
+				return "bad-op"
+			}
+			var pk groupsig.Pubkey
+			if len(b) == 1 && b[0] == 0 {
+				// the identity key: only obtainable as a value, not by parsing
+				pk = *groupsig.GeneratePubkey(seckeyOf(big.NewInt(0)))
+			} else if len(b) != 128 || pk.Deserialize(b) != nil {
+				return "bad-op"
+			}
+			pks = append(pks, pk)
+		}
+		agg := groupsig.AggregatePubkeys(pks)
+		if agg == nil {
+			return "nil"
+		}
+		return hx.Hex(agg.Serialize())
 	case w[0] == "jlin" && len(w) == 5:
 		a, ok1 := ptOf(w[1])
 		k1, ok2 := bigDec(w[2])
@@ -922,6 +990,37 @@ func runCorr(a map[string]string) {
 		do("jlin " + p + " " + k1.String() + " " + q + " " + k2.String())
 		do("jdbl " + p + " " + k1.String())
 	}
+	// G2: twist arithmetic, key generation, key aggregation
+	for i := 0; i < narith/2; i++ {
+		k1, k2 := g.sk(), g.sk()
+		p := hx.Hex(new(bn.G2).ScalarBaseMult(k1).Marshal())
+		q := hx.Hex(new(bn.G2).ScalarBaseMult(k2).Marshal())
+		np := exec("g2neg " + p)
+		do("g2neg " + p)
+		do("g2add " + p + " " + q)
+		do("g2add " + p + " " + p)
+		do("g2add " + p + " " + np)
+		do("g2add " + p + " 00")
+		do("g2add 00 " + q)
+		do("pkagg " + p + " " + q + " " + np)
+		do("pkagg " + p)
+		do("pkagg " + p + " " + np) // the identity key as an aggregate: serialises to 00
+		if i < 3 {
+			do("g2mul " + p + " " + g.scalar().String())
+			do("pkgen " + g.scalar().String())
+			if t := twistCofactorPoint(r); t != nil {
+				// points of the twist outside the order-r subgroup are accepted by Unmarshal
+				tp := hx.Hex(t.Marshal())
+				do("g2add " + p + " " + tp)
+				do("g2neg " + tp)
+			}
+		}
+	}
+	do("pkagg")
+	do("pkgen 0")
+	do("pkgen 1")
+	do("pkgen " + bigR.String())
+	do("g2mul " + hx.Hex(bn.GetG2Base().Marshal()) + " " + bigR.String())
 	// SHA-256 padding boundaries (the model hashes by itself now)
 	for _, n := range []int{0, 1, 54, 55, 56, 57, 63, 64, 65, 118, 119, 120, 127, 128, 129, 200} {
 		do("h2p " + hx.Hex(r.Bytes(n)))
